@@ -1,23 +1,27 @@
 """C16 Resolver choice policy: highest version for upgrades, reuse for minimal installs, determinism.
 
 Generated (vf.gen.resolverworld):
-  * policy worlds - profiles 'mono' (1/3) and 'mono-cyclic' (2/3): every dependency is unversioned or `>=` (optionally
-    slotted), no blockers, so the highest version of a slot satisfies whatever a lower one satisfies and choices
-    cannot conflict.  Names are ranked; every DEPEND/BDEPEND/RDEPEND/IDEPEND clause has an alternative on a
-    higher-ranked name, PDEPEND may point anywhere, and any-of groups get extra alternatives pointing back (own or
-    lower-ranked name) - so the worlds contain dependency cycles, build-time ones included, that a resolver can always
-    get out of ('mono-cyclic': more build-time clauses, more back-pointing alternatives, mostly one plain atom per
-    name).  1-3 targets on distinct names in generated (unsorted) order, as `pmerge
-    --disable-resolver-target-sorting` passes them; upgrade_resolver / min_install_resolver as pmerge builds them
-    (verify_vdb on/off, lists or RepositoryGroup; no empty-tree / force-replace, which deliberately ignore or re-merge
-    installed packages).
+  * policy worlds - profiles 'mono' (1/8), 'mono-cyclic' (3/8), 'mono-slots' (2/8), 'mono-sparse' (2/8): every
+    dependency is unversioned or `>=` (optionally slotted), so the highest version of a slot satisfies whatever a
+    lower one satisfies and choices cannot conflict.  Names are ranked; every DEPEND/BDEPEND/RDEPEND/IDEPEND clause has
+    an alternative on a higher-ranked name, PDEPEND may point anywhere, and any-of groups get extra alternatives
+    pointing back (own or lower-ranked name) - so the worlds contain dependency cycles, build-time ones included, that
+    a resolver can always get out of.  Slot-1 versions may build-depend on slot 0 of their own name (cross-slot
+    bootstrap deps), dependencies on multi-slot names are partly slot-qualified, and packages carry blockers that
+    match no package of any repository (inert: they must not influence anything).  The sub-profiles shift the
+    weights: more build-time clauses/back alternatives (cyclic), more slots and little installed (slots), few
+    dependencies = independent targets and more blockers (sparse).  1-3 targets on distinct names in generated
+    (unsorted) order, as `pmerge --disable-resolver-target-sorting` passes them; upgrade_resolver /
+    min_install_resolver as pmerge builds them (verify_vdb on/off, lists or RepositoryGroup; no empty-tree /
+    force-replace, which deliberately ignore or re-merge installed packages).
   * determinism worlds - profile 'full' (everything C15 generates, all resolver switches, 1-3 targets).
 
 Oracle:
   * reference resolvability R (least fixpoint, shares no code with the resolver): a package is *provably* resolvable
     iff every PDEPEND clause has an alternative matched by a provably resolvable package and every other clause has
-    such an alternative on a HIGHER-ranked name (installed packages count outright when verify_vdb is off: pmerge
-    wipes their dependencies then).  Alternatives that point back are ignored: whether one of them works depends on
+    such an alternative on a HIGHER-ranked name or on a LOWER slot of its own name (installed packages count outright
+    when verify_vdb is off: pmerge wipes their dependencies then); blocker clauses ask for nothing (only blockers
+    that match no package are inside the judged domain - replayed worlds with other blockers are not judged).  Alternatives that point back are ignored: whether one of them works depends on
     the resolver's context-dependent cycle rules, but when it fails the forward alternative is still there.
   * which targets are judged: target i is judged iff its name is not reachable (any class, any alternative, any
     candidate) from the candidates of targets 1..i-1 - otherwise it may legitimately be "already satisfied" by a lower
@@ -31,7 +35,7 @@ Oracle:
   * if every target has a provably resolvable candidate, resolution must succeed.
   * determinism (P3): resolving the same world again with fresh objects, and again with every repository dict built in
     a different insertion order, must give the identical outcome and operation list.
-Class counters: multi_target, judged-later-target, cycle:installed-only-retry (a cycle made the resolver retry an atom
+Class counters: world:inert-blocker, world:cross-slot-build-dep, multi_target, judged-later-target, cycle:installed-only-retry (a cycle made the resolver retry an atom
 against the installed db only), depend_cycle_survivable (such a retry happened and resolution still succeeded).
 
 Dropped w.r.t. DESIGN.md: brute-force search over version choices (on these profiles the fixpoint is a sound
@@ -358,7 +362,7 @@ def eval_determinism(ctx, world, record=True):
 
 def plan(tier, seed):
     if tier == "quick":
-        return [{"task": "policy", "examples": 800} for _ in range(11)] + [{"task": "determinism", "examples": 60} for _ in range(5)]
+        return [{"task": "policy", "examples": 500} for _ in range(11)] + [{"task": "determinism", "examples": 60} for _ in range(5)]
     return [{"task": "policy", "examples": 8000} for _ in range(20)] + [{"task": "determinism", "examples": 2500} for _ in range(12)]
 
 
